@@ -49,6 +49,9 @@ func Write(w io.Writer, scalerType uint32, tables map[string][]byte) (int64, err
 
 	// prepare the header
 	entrySelector := bits.Len(uint(numTables)) - 1
+	if numTables == 0 {
+		entrySelector = 0
+	}
 	header := &offsets{
 		ScalerType:    scalerType,
 		NumTables:     uint16(numTables),
@@ -56,9 +59,18 @@ func Write(w io.Writer, scalerType uint32, tables map[string][]byte) (int64, err
 		EntrySelector: uint16(entrySelector),
 		RangeShift:    uint16(16 * (numTables - 1<<entrySelector)),
 	}
+	if numTables == 0 {
+		header.SearchRange = 0
+		header.RangeShift = 0
+	}
 
 	// temporarily clear the checksum in the "head" table
-	if headData := tables["head"]; headData != nil {
+	// (a table which is too short to contain the field is written as is)
+	headData := tables["head"]
+	if len(headData) < 12 {
+		headData = nil
+	}
+	if headData != nil {
 		clearChecksum(headData)
 	}
 
@@ -89,7 +101,7 @@ func Write(w io.Writer, scalerType uint32, tables map[string][]byte) (int64, err
 	totalSum += checksum(headerBytes)
 
 	// set the final checksum in the "head" table
-	if headData := tables["head"]; headData != nil {
+	if headData != nil {
 		patchChecksum(headData, totalSum)
 	}
 
